@@ -35,12 +35,16 @@ Definition heap := list obj.
 
 Definition hget (hp : heap) (l : loc) : option obj := nth_error hp l.
 
-Fixpoint hset (hp : heap) (l : loc) (o : obj) : heap :=
-  match hp, l with
+(** [l[i] = x] for [i < len(l)] (no effect otherwise) *)
+Fixpoint set_nth {A} (l : list A) (i : nat) (x : A) : list A :=
+  match l, i with
   | [], _ => []
-  | _ :: r, O => o :: r
-  | x :: r, S l' => x :: hset r l' o
+  | _ :: r, O => x :: r
+  | y :: r, S j => y :: set_nth r j x
   end.
+
+(** mutation of the object at a location *)
+Definition hset (hp : heap) (l : loc) (o : obj) : heap := set_nth hp l o.
 
 Definition get_list (hp : heap) (l : loc) : option (list cat) :=
   match hget hp l with Some (OList x) => Some x | _ => None end.
@@ -103,13 +107,6 @@ Definition set_frozen (d : db) : db :=
   mkdb (cl d) (dd d) (cm_m d) (cm_e d) (cm_s d) (unk_m d) (unk_e d) (unk_s d) true (counter d).
 Definition set_counter (n : nat) (d : db) : db :=
   mkdb (cl d) (dd d) (cm_m d) (cm_e d) (cm_s d) (unk_m d) (unk_e d) (unk_s d) (frozen d) n.
-
-Fixpoint set_nth {A} (l : list A) (i : nat) (x : A) : list A :=
-  match l, i with
-  | [], _ => []
-  | _ :: r, O => x :: r
-  | y :: r, S j => y :: set_nth r j x
-  end.
 
 (** [LatexContextDb.__init__]: eight fresh containers.  [ChainMap({})] is a
     chain whose only map is a fresh empty dict (a ChainMap always has at least
